@@ -100,6 +100,24 @@ def monitor(case, obs):
             if not any(f['start'] < sf < f['ret'] for (sf, kk) in tr.sflush if kk == k):
                 return 'flush_log() %d returned but sink %d was not flushed (the flush of another sink throws: %s)' % (
                     i, k, [j for j in used if 4095 in case.sinks[j][1]])
+    # "if a sink's flush throws, the error is reported": a pass over the sinks leaves one token per sink in use, a flush
+    # record for a sink that was flushed and an error report for one whose flush threw (the recording sinks all throw the
+    # same text). Consecutive passes merge into one run of tokens; in a run with P passes (P = flush records / number of
+    # non-throwing sinks) at least P x (number of throwing sinks) reports must be present.
+    n_throw = sum(1 for k in used if 4095 in case.sinks[k][1]); n_ok = len(used) - n_throw
+    if n_throw and n_ok and obs:
+        p = 0
+        while p < len(obs):
+            if obs[p][0] == 'sflush' or (obs[p][0] == 'note' and obs[p][1] == 5):
+                q = p; nf = 0; nr = 0
+                while q < len(obs) and (obs[q][0] == 'sflush' or (obs[q][0] == 'note' and obs[q][1] == 5)):
+                    nf += obs[q][0] == 'sflush'; nr += obs[q][0] == 'note'; q += 1
+                if nf and nf % n_ok == 0 and nr < (nf // n_ok) * n_throw:
+                    return ('%d pass(es) over the sinks flushed the %d healthy sink(s) but only %d error report(s) reached the notifier for the %d sink(s) whose flush_sink() throws'
+                            % (nf // n_ok, n_ok, nr, n_throw))
+                p = q
+            else:
+                p += 1
     # per-thread order among ordinary statements
     for k, ids in seen.items():
         last = {}
